@@ -120,6 +120,33 @@ Section WithOrder.
     fc_loop g fuel [(root, O)] [] [].
 End WithOrder.
 
+
+(* ---------- vocabulary of the statements about the function (FindCycleProofs.v, Props/Properties_C07.v) ---------- *)
+
+(* x waits on y: y is a predecessor of x, i.e. x is in successorGraph[y] *)
+Definition dep (g : graph) (x y : key) : Prop := In (y, x) g.
+
+(* a walk along predecessor edges: every key is followed by a key it waits on *)
+Fixpoint chain (g : graph) (l : list key) : Prop :=
+  match l with
+  | [] => True
+  | x :: t => match t with
+              | [] => True
+              | y :: _ => dep g x y /\ chain g t
+              end
+  end.
+
+(* some walk from the root along predecessor edges visits a key twice *)
+Definition cycle_reachable (g : graph) (root : key) : Prop := exists w, chain g (root :: w) /\ ~ NoDup (root :: w).
+
+(* every key reachable from the root waits on something (the situation of a stalled engine) *)
+Definition no_dead_end (g : graph) (root : key) : Prop :=
+  forall w, chain g (root :: w) -> exists p, dep g (last (root :: w) root) p.
+
+Definition closed_walk (g : graph) (y : key) (m : list key) : Prop := chain g (y :: m ++ [y]).   (* y -> ... -> y, at least one edge *)
+Definition reachable (g : graph) (root y : key) : Prop := exists w, chain g (root :: w) /\ last (root :: w) root = y.
+Definition acyclic (g : graph) : Prop := forall y m, ~ closed_walk g y m.
+
 (* ---------- fuel that always suffices (FindCycleProofs.fc_terminates) ---------- *)
 
 (* every key that occurs: the root and both ends of every edge, without repetition *)
